@@ -906,6 +906,9 @@ func (s *Spec) Clone() *Spec {
 		pp.Params = append([]int{}, p.Params...)
 		pp.Results = append([]int{}, p.Results...)
 		pp.Binds = append([]int{}, p.Binds...)
+		pp.ParamSpell = append([]string{}, p.ParamSpell...)
+		pp.ResultSpell = append([]string{}, p.ResultSpell...)
+		pp.AsmFields = append([]string{}, p.AsmFields...)
 		c.Provs = append(c.Provs, &pp)
 	}
 	c.Sets = nil
